@@ -249,7 +249,7 @@ func ParseSpecs(lines []SpecLine) *SpecDB {
 			}
 			cur.Hints = append(cur.Hints, &HintAt{Site: strings.TrimSpace(it.rest[:i]), Expr: e, Src: it.rest})
 		case "asserts":
-			// asserts <site> :: [props] label: expr  -- an obligation evaluated in the state just before the call at <site> (then assumed)
+			// asserts <site> :: [props] label: expr  -- an obligation evaluated in the state just before the call at <site> (checked, not assumed)
 			i := strings.Index(it.rest, "::")
 			if i < 0 || cur == nil {
 				errf(it, "asserts <site> :: [props] label: expr")
